@@ -29,6 +29,8 @@ PROP = {
              "input has the same complete observation in both histories; after every failing input that failed: depth 0, scope at "
              "root, State.Out is the session's writer, root register count unchanged, globals unchanged. The Lean model (runInput per "
              "parsed input, configurations B and D) predicts both histories; it declines extension calls and the allocation guard. "
+             "A case in which an input that is not of the deadline kind is cancelled by the 500 ms wall-clock limit (a generated loop that "
+             "does not terminate) is void: what it printed before the cancellation depends on timing (tag void:base-input-hit-deadline). "
              "non-trivial = at least one inserted input failed; distinct = distinct case line."),
     "trusted_base": COMMON_TB + EVAL_TB[len(COMMON_TB):] + [
         "repl.EvalOne itself is exercised on persistent states (harness/cmd/harness/session.go), not a replica; the hooks used are "
@@ -51,8 +53,8 @@ LEVEL = {
              "states/programs/continuations: an input's observation and successor state depend on the session state only up to the "
              "writer stack and step counter (runInput_congr, runInputs_congr); the next input starts on a single fresh writer; from a "
              "top-level state, after ANY input (normal, error, Go panic, depth guard) scope = root and depth = 0 (reset; by induction "
-             "over the whole evaluator: eval_restores, eval_keeps); an input whose final state has the heap and cache it started with "
-             "leaves no trace for any continuation (no_trace). The full statement (heap grown by unreachable frames, cache unchanged) "
+             "over the whole evaluator: eval_restores, eval_keeps); an input whose final state has the heap, cache and in-place-write log (St.hazards, "
+             "C06/C19 instrumentation) it started with leaves no trace for any continuation (no_trace). The full statement (heap grown by unreachable frames, cache unchanged) "
              "is stated as C10.Statement and not proved. One listed finding: with the cache on, a failing input leaves cached "
              "closures behind (C04's closure-result class)."),
     "design_ref": "DESIGN.md section 7, C10",
